@@ -41,6 +41,8 @@ pub struct Story {
     pub(crate) allow_external_function_fallbacks: bool,
     pub(crate) saw_lookahead_unsafe_function_after_new_line: bool,
     pub(crate) externals: HashMap<String, ExternalFunctionDef>,
+    #[cfg(feature = "verif")]
+    pub(crate) verif: crate::verif::VerifState,
 }
 mod misc {
     use crate::{
@@ -82,6 +84,8 @@ mod misc {
                 has_validated_externals: false,
                 allow_external_function_fallbacks: false,
                 externals: HashMap::with_capacity(0),
+                #[cfg(feature = "verif")]
+                verif: Default::default(),
             };
 
             story.reset_globals()?;
@@ -192,3 +196,5 @@ mod progress;
 mod state;
 mod tags;
 pub mod variable_observer;
+#[cfg(feature = "verif")]
+mod verif_hooks;
